@@ -252,6 +252,76 @@ def lex_literal(word):
     return [("W", word)]
 
 
+def model_field(t, depth=0, fields=0):
+    """is the term a field of the value being written, possibly of an item of one of its collections (reached through
+    iterator / deref / unwrap calls)?  Such a String is one token of model text."""
+    while isinstance(t, tuple) and depth < 60:
+        depth += 1
+        if t[0] == "param":
+            return fields > 0
+        if t[0] == "f":
+            fields += 1 if not str(t[2]).isdigit() else 0
+            t = t[1]
+        elif t[0] in ("v", "i", "discr"):
+            t = t[1]
+        elif t[0] == "call" and t[2] and t[1] and re.search(r"Iterator>?::next$|Iterator for .*>::next$|::into_iter$|::iter$|::iter_mut$|Deref>?::deref$|::as_ref$|::unwrap$|::as_str$|::clone$|::borrow$|::as_deref$|::enumerate$|::peekable$", t[1]):
+            t = t[2][0]
+        elif t[0] == "op" and t[1] in ("mut", "ref", "deref") and t[2]:
+            t = t[2][0]
+        else:
+            return False
+    return False
+
+
+def term_type(F, root_fn, t, depth=0):
+    """type (facts JSON) of a term rooted in a parameter of `root_fn`, following named fields, Option payloads and
+    iteration over Vec / slices; None when it cannot be derived"""
+    if not isinstance(t, tuple) or depth > 60:
+        return None
+
+    def strip(ty):
+        while ty is not None and ty.get("k") == "ref":
+            ty = ty["to"]
+        return ty
+    if t[0] == "param":
+        k = t[1] - 1
+        return strip(root_fn.inputs[k]) if 0 <= k < len(root_fn.inputs) else None
+    if t[0] == "f":
+        base = t[1]
+        if base[0] == "v" and base[2] == "Some" and t[2] == "0":
+            ty = strip(term_type(F, root_fn, base[1], depth + 1))
+            if ty and ty.get("k") == "adt" and ty["id"].endswith("option::Option") and ty.get("args"):
+                return strip(ty["args"][0])
+            return None
+        ty = strip(term_type(F, root_fn, base, depth + 1))
+        if ty and ty.get("k") == "adt" and ty["id"] in F.adts:
+            for v in F.adts[ty["id"]]["variants"]:
+                for fl in v["fields"]:
+                    if fl["name"] == t[2]:
+                        return strip(fl["ty"])
+        if ty and ty.get("k") == "tuple" and str(t[2]).isdigit() and int(t[2]) < len(ty.get("args", [])):
+            return strip(ty["args"][int(t[2])])
+        return None
+    if t[0] in ("v", "discr"):
+        return term_type(F, root_fn, t[1], depth + 1)
+    if t[0] == "op" and t[2]:
+        return term_type(F, root_fn, t[2][0], depth + 1)
+    if t[0] == "call" and t[1] and t[2]:
+        ty = strip(term_type(F, root_fn, t[2][0], depth + 1))
+        if re.search(r"Iterator>?::next$|Iterator for .*>::next$", t[1]):
+            if ty and ty.get("k") == "adt" and ty["id"].endswith("vec::Vec") and ty.get("args"):
+                return {"k": "adt", "id": "core::option::Option", "args": [strip(ty["args"][0])], "s": "Option"}
+            if ty and ty.get("k") in ("slice", "array"):
+                return {"k": "adt", "id": "core::option::Option", "args": [strip(ty["to"])], "s": "Option"}
+            return None
+        if re.search(r"::into_iter$|::iter$|Deref>?::deref$|::as_ref$|::as_slice$|::clone$|::borrow$", t[1]):
+            return ty
+        if re.search(r"::unwrap$|::as_deref$", t[1]):
+            if ty and ty.get("k") == "adt" and ty["id"].endswith("option::Option") and ty.get("args"):
+                return strip(ty["args"][0])
+    return None
+
+
 class WriterModel:
     def __init__(self, lang):
         self.L = lang
@@ -266,6 +336,9 @@ class WriterModel:
         # resolve promoted constants
         if term and term[0] == "promoted":
             term = L.promoted_term(fn, term[1])
+        # `format!` wraps its result in hint::must_use(..)
+        while term and term[0] == "call" and term[1] and term[1].endswith("hint::must_use") and term[2]:
+            term = term[2][0]
         t = strip_calls(term) if term else term
         if t and t[0] == "promoted":
             t = L.promoted_term(fn, t[1])
@@ -284,15 +357,26 @@ class WriterModel:
             return self.template_pieces(fn, term[1], term[2], depth + 1)
         if t and t[0] == "fmtstr" and depth < 4:
             return self.template_pieces(fn, t[1], t[2], depth + 1)
+        # `format!("{}", format_args!(..))` (what fstrings' format_f! expands to): the inner template, inline
+        for cand in (term, t):
+            if cand and cand[0] == "fmtargs" and depth < 4:
+                return self.template_pieces(fn, cand[1], cand[2], depth + 1)
         if t and t[0] == "const" and isinstance(t[1], str) and tname.replace("&", "").strip().split("::")[-1] in ("String", "str"):
             return [("lit", t[1])] if t[1] else []
         if t and t[0] == "call" and t[1] and re.search(r"String::new$", t[1]):
             return []
+        # a String returned by a helper of the writer (`display_option(&attr.layer)`): one alternative per return path
+        if term and term[0] == "call" and term[1] and depth < 3 and tname.replace("&", "").strip().split("::")[-1] in ("String", "str"):
+            g = self.helper_fn(term[1])
+            if g is not None:
+                alts = self.fn_string_alts(g, term[2], depth, getattr(self, "_root_fn", None) or fn)
+                if alts is not None:
+                    return [("alt", alts)]
         cl = L.class_of_type(tname)
         if cl == [("TEXT",)]:
             # model String fields are single tokens; locally computed strings are unknown text
             root, chain = field_chain(term) if term else (None, [])
-            if not (isinstance(root, tuple) and root[0] == "param" and chain):
+            if not (isinstance(root, tuple) and root[0] == "param" and chain) and not model_field(term):
                 return [("tok", ("WILD",))]
             if chain and chain[-1] in ("data",):
                 return [("tok", ("WILD",))]
@@ -373,7 +457,7 @@ class WriterModel:
         for i, a in enumerate(args):
             if a is not None and i >= 1:
                 init.env[i + 1] = a
-        w = Walker(g, max_visits=2, follow_errors=False, max_paths=3000)
+        w = Walker(g, max_visits=2, follow_errors=False, max_paths=3000, max_depth=40)
         rets = []
         w.run(init=init, on_call=self._mk_on_call(g, emit=False, depth=depth + 1), on_return=lambda p: rets.append(p.env.get(0)), on_switch=agg_switch(self.F), on_stmt=self._on_stmt)
         alts = []
@@ -386,6 +470,61 @@ class WriterModel:
                     alts.append(a)
         self.cache[key] = alts[:96]
         return self.cache[key]
+
+    def helper_fn(self, name):
+        """the workspace function a call term names (generic arguments ignored), if it is a plain helper with a body"""
+        from .facts import short_name
+        key = ("helper", name)
+        if key not in self.cache:
+            sn = short_name(name)
+            c = [g for g in self.F.fns.values() if g.id.startswith("lef21::") and g.body and g.kind != "Closure" and short_name(g.name) == sn
+                 and (g.output or {}).get("s", "").split("::")[-1] == "String"]
+            self.cache[key] = c[0] if len(c) == 1 else None
+        return self.cache[key]
+
+    def fn_string_alts(self, g, args, depth=0, root_fn=None):
+        """inline a helper that returns a String, with the caller's argument terms bound to its parameters: a tuple of
+        alternatives, each a tuple of words (here: no word for the empty string, else one word = tuple of pieces)"""
+        key = ("string", g.id, args, root_fn.id if root_fn is not None else None)
+        if key in self.cache:
+            return self.cache[key]
+        self.cache[key] = None
+        from .walk import Path
+        init = Path()
+        for i, a in enumerate(args):
+            if a is not None:
+                init.env[i + 1] = a
+        w = Walker(g, max_visits=2, follow_errors=False, max_paths=500, max_depth=40)
+        rets = []
+        w.run(init=init, on_call=self._mk_on_call(g, emit=False, depth=depth + 1), on_return=lambda p: rets.append(p.env.get(0)), on_switch=agg_switch(self.F), on_stmt=self._on_stmt)
+        alts = []
+        for r in rets:
+            if r is None:
+                alts = None
+                break
+            # `x.to_string()` of a Display value: the value's own text class (a model String is one TEXT token)
+            inner = r
+            while inner and inner[0] == "call" and inner[1] and re.search(r"ToString>?::to_string$|::to_owned$|::clone$|::to_string$", inner[1]) and inner[2]:
+                inner = inner[2][0]
+            tn = "String"
+            if inner and inner[0] == "fmtarg":
+                # Display of a generic value: the instantiation named at the call site says what it is
+                tn = inner[1]
+                inner = inner[2]
+                if re.match(r"^&?[A-Z]\w?$", tn) and root_fn is not None:
+                    ty = term_type(self.F, root_fn, inner)
+                    if ty is not None and ty.get("s"):
+                        tn = ty["s"]
+            pcs = self.arg_pieces(g, tn, inner, depth + 1)
+            if any(pc[0] == "alt" for pc in pcs):
+                alts = None
+                break
+            a = (tuple(pcs),) if pcs else ()
+            if a not in alts:
+                alts.append(a)
+        res = tuple(alts[:16]) if alts else None
+        self.cache[key] = res
+        return res
 
     @staticmethod
     def _opt_variant(L, fn, t):
@@ -519,7 +658,8 @@ class WriterModel:
             return self.cache[fn.id]
         self.cache[fn.id] = []
         F = self.F
-        w = Walker(fn, max_visits=2, follow_errors=False, max_paths=6000)
+        self._root_fn = fn
+        w = Walker(fn, max_visits=2, follow_errors=False, max_paths=6000, max_depth=40)
         out = set()
         model = self
 
@@ -792,6 +932,10 @@ class ParserSim:
                     cands = [tcur[1].upper()]
                 elif tcur[0] == "TEXT":
                     cands = None  # unknown key: any arm
+                elif tcur[0] == "E" and sim.enum_variants(tcur[1]) and all(w_.upper() in L.str_key for w_ in sim.enum_variants(tcur[1]).values()):
+                    # a displayed enum value whose every spelling is also a keyword (PROPERTYDEFINITIONS' object types):
+                    # one run per spelling
+                    return ("fork_tokens", [((("toks",), tk[:p] + (("K", w_.upper()),) + tk[p + 1:])) for w_ in sorted(set(sim.enum_variants(tcur[1]).values()))])
                 else:
                     sim.note_fail(fn, path, "a keyword")
                     return ("stop",)
